@@ -6,11 +6,13 @@ taken before setup (the shadow copy, so a setup that mutates its input cannot fo
 """
 import copy
 import json
+import re
 
 from vlib import gen, sse
 from vlib.common import exc_site
 
 MAX_PRESENT = 40
+KEY_SHAPING = re.compile(r"lambda|^param_k(_prime)?$|^scheme$")
 
 
 def run(spec, acc, ctx, mode):
@@ -18,9 +20,11 @@ def run(spec, acc, ctx, mode):
     short = gen.SHORT[scheme]
     rng = ctx.rng
     objects = {}
+    key_by_shape = {}
     for cid, cfg, cls, db, info in sse.iter_cases(spec, ctx):
         shadow = copy.deepcopy(db)
         cp = gen.caps(scheme, cfg)
+        cfg_at_setup = copy.deepcopy(cfg)
         # Hidden state across calls: half of the cases re-use the scheme OBJECT of an earlier case with the identical
         # configuration, and most of those also re-use its KEY (a client that re-encrypts an updated database under
         # its key), sharing a few keywords with the earlier database.  Afterwards the EARLIER index is searched again.
@@ -33,9 +37,63 @@ def run(spec, acc, ctx, mode):
                     victim = rng.choice(sorted(db))
                     db[old_w] = db.pop(victim)
             shadow = copy.deepcopy(db)
-        st = sse.Setup(scheme, cfg, db, sse_obj=prev["obj"] if prev else None, key=prev["key"] if same_key else None)
+        use_obj = prev["obj"] if prev else None
+        use_key = prev["key"] if same_key else None
+        extra_absent = []
+        # Same key bytes under ANOTHER configuration of the scheme whose key-shaping parameters are equal (a client
+        # that keeps its key and changes label lengths or block sizes): nothing learnt under the old configuration
+        # may leak into answers under the new one.
+        shape = (scheme, tuple(sorted((k, v) for k, v in cfg.items() if KEY_SHAPING.search(k))))
+        other = key_by_shape.get(shape)
+        if prev is None and other is not None and other["ck"] != ck and rng.random() < 0.4:
+            use_key = other["key"]
+            extra_absent += [w for w in other["db"] if w not in db and len(w) <= cp["kw_limit"]][:4]
+            acc.count("scheme_objects.key-from-another-configuration")
+        # A setup that FAILS half-way on this very object and key (a database with one malformed posting, processed
+        # after a few good keywords), then the real setup: nothing of the rejected database may be searchable.
+        if rng.random() < 0.2:
+            try:
+                L = sse.loader(scheme)
+                if use_obj is None:
+                    use_obj = L.SSEScheme(cfg)
+                if use_key is None:
+                    use_key = use_obj.KeyGen()
+                bad_db = {}
+                for _ in range(rng.randint(1, 3)):
+                    w = gen.gen_keyword(rng, cp["kw_limit"], set(db) | set(bad_db))
+                    bad_db[w] = gen.gen_ids(rng, cp["id_size"], rng.randint(1, 3))
+                poison = gen.gen_keyword(rng, cp["kw_limit"], set(db) | set(bad_db))
+                bad_db[poison] = gen.gen_ids(rng, cp["id_size"], 2) + [rng.choice([None, 7, "id"])]
+                try:
+                    use_obj.EDBSetup(use_key, bad_db)
+                    acc.count("rejected_setups.accepted")
+                except Exception:
+                    acc.count("rejected_setups")
+                    extra_absent += [w for w in bad_db if w not in db]
+            except Exception as e:
+                acc.note(f"{short}: could not stage a rejected setup: {exc_site(e)}")
+        st = sse.Setup(scheme, cfg, db, sse_obj=use_obj, key=use_key)
         acc.count("scheme_objects.reused-with-key" if same_key else "scheme_objects.reused" if prev else
                   "scheme_objects.fresh")
+        if st.error is None and rng.random() < 0.35:
+            # the caller goes on using ITS objects: the configuration dict is rewritten for the next experiment and the
+            # database is edited; the index that was built, and searches on it, must not notice
+            acc.count("caller_edits_inputs_after_setup")
+            try:
+                _, other_cfg = gen.pick_config(scheme, rng, rng.randrange(0, 40))
+                keep_name = cfg.get("scheme")
+                cfg.clear()
+                cfg.update(other_cfg)
+                if keep_name is not None:
+                    cfg["scheme"] = keep_name
+                for k in list(db)[:3]:
+                    if db[k] is not None:
+                        db[k].append(b"\xee" * cp["id_size"])
+                        db[k].reverse()
+                db[b"added-later"] = [b"\xdd" * cp["id_size"]]
+                db.pop(next(iter(db)))
+            except Exception as e:
+                acc.note(f"{short}: could not edit the inputs: {exc_site(e)}")
         if st.error is None and prev is not None:
             # the earlier index must still answer as before, whatever the object has done since
             old = prev
@@ -50,15 +108,16 @@ def run(spec, acc, ctx, mode):
                         acc.violation(f"{short}:earlier-index-answers-differently",
                                       f"{scheme}: after a later EDBSetup on the same scheme object, an earlier index returns "
                                       f"{len(got)} ids for a{' stored' if present else 'n absent'} keyword (expected {len(want)})",
-                                      sse.case_desc(scheme, cid, cfg, cls, shadow, {"earlier_db": old["db"], "keyword": w}))
+                                      sse.case_desc(scheme, cid, cfg_at_setup, cls, shadow, {"earlier_db": old["db"], "keyword": w}))
                 except Exception as e:
                     acc.violation(f"{short}:earlier-index-search-raised:{exc_site(e)}",
                                   f"{scheme}: after a later EDBSetup on the same scheme object, searching an earlier index "
                                   f"raised {type(e).__name__}: {e}",
-                                  sse.case_desc(scheme, cid, cfg, cls, shadow, {"earlier_db": old["db"], "keyword": w}))
+                                  sse.case_desc(scheme, cid, cfg_at_setup, cls, shadow, {"earlier_db": old["db"], "keyword": w}))
         earlier_keywords = [w for w in (prev["db"] if same_key else {}) if w not in shadow]
         if st.error is None:
             objects[ck] = {"obj": st.sse, "key": st.key, "db": shadow, "edb": st.edb}
+            key_by_shape[shape] = {"key": st.key, "db": shadow, "ck": ck}
             if len(objects) > 48:
                 objects.pop(next(iter(objects)))
         acc.count("cases")
@@ -74,7 +133,7 @@ def run(spec, acc, ctx, mode):
                 acc.violation(sse.setup_signature(scheme, st),
                               f"{scheme} {st.phase} raised {type(st.error).__name__}: {st.error} on a valid "
                               f"database (class {cls}, N={info['N']}, {sse.db_tags(shadow)})",
-                              sse.case_desc(scheme, cid, cfg, cls, shadow))
+                              sse.case_desc(scheme, cid, cfg_at_setup, cls, shadow))
             else:
                 acc.count("setup_failed")
             continue
@@ -92,7 +151,7 @@ def run(spec, acc, ctx, mode):
                     acc.violation(f"{short}:search-raised:{exc_site(e)}",
                                   f"{scheme} search of a stored keyword raised {type(e).__name__}: {e} "
                                   f"(class {cls}, |DB(w)|={len(shadow[w])}, N={info['N']})",
-                                  sse.case_desc(scheme, cid, cfg, cls, shadow, {"keyword": w}))
+                                  sse.case_desc(scheme, cid, cfg_at_setup, cls, shadow, {"keyword": w}))
                     continue
                 nontrivial = True
                 acc.count("postings_compared", len(shadow[w]))
@@ -101,10 +160,11 @@ def run(spec, acc, ctx, mode):
                     acc.violation(f"{short}:wrong-result:{kind}",
                                   f"{scheme} result for a stored keyword differs ({kind}): got {len(got)} ids, "
                                   f"expected {len(shadow[w])} (class {cls}, N={info['N']})",
-                                  sse.case_desc(scheme, cid, cfg, cls, shadow, {"keyword": w}))
+                                  sse.case_desc(scheme, cid, cfg_at_setup, cls, shadow, {"keyword": w}))
         else:
             for w, fam in gen.absent_keywords(rng, shadow, cp["kw_limit"]) + \
-                    [(w, "stored-earlier-under-this-key") for w in earlier_keywords[:6]]:
+                    [(w, "stored-earlier-under-this-key") for w in earlier_keywords[:6]] + \
+                    [(w, "seen-by-this-key-or-object-before") for w in extra_absent if w not in shadow]:
                 acc.count("searches.absent")
                 acc.count(f"searches.absent.{short}")
                 acc.count("absent_family." + fam)
@@ -113,7 +173,7 @@ def run(spec, acc, ctx, mode):
                 except Exception as e:
                     acc.violation(f"{short}:absent-search-raised:{exc_site(e)}",
                                   f"{scheme} search of an absent keyword ({fam}) raised {type(e).__name__}: {e}",
-                                  sse.case_desc(scheme, cid, cfg, cls, shadow, {"keyword": w, "family": fam}))
+                                  sse.case_desc(scheme, cid, cfg_at_setup, cls, shadow, {"keyword": w, "family": fam}))
                     continue
                 nontrivial = True
                 try:
@@ -123,7 +183,7 @@ def run(spec, acc, ctx, mode):
                 if not empty:
                     acc.violation(f"{short}:absent-nonempty",
                                   f"{scheme} search of an absent keyword ({fam}) returned {len(got)} identifiers",
-                                  sse.case_desc(scheme, cid, cfg, cls, shadow, {"keyword": w, "family": fam}))
+                                  sse.case_desc(scheme, cid, cfg_at_setup, cls, shadow, {"keyword": w, "family": fam}))
         if nontrivial:
             acc.add("distinct", sse.case_fp(scheme, cid, shadow))
         if acc.counters.get("cases." + short, 0) <= 1:
@@ -185,7 +245,10 @@ def finish(m, tier, mode, min_searches):
         "scheme_objects": {"fresh": c.get("scheme_objects.fresh", 0),
                            "reused_from_an_earlier_case_fresh_key": c.get("scheme_objects.reused", 0),
                            "reused_with_the_earlier_key": c.get("scheme_objects.reused-with-key", 0),
-                           "searches_of_the_earlier_index_afterwards": c.get("earlier_index_searches", 0)},
+                           "searches_of_the_earlier_index_afterwards": c.get("earlier_index_searches", 0),
+                           "key_taken_from_another_configuration": c.get("scheme_objects.key-from-another-configuration", 0)},
+        "setups_rejected_half_way_before_the_real_one": c.get("rejected_setups", 0),
+        "cases_in_which_the_caller_edited_cfg_and_db_after_setup": c.get("caller_edits_inputs_after_setup", 0),
     }
     if mode == "present":
         cov["postings_compared"] = c.get("postings_compared", 0)
